@@ -246,10 +246,10 @@ func checkC07() fw.Check {
 					jmu <- struct{}{}
 					d.Jitter = func() time.Duration {
 						<-jmu
-						v := jr.Intn(4)
+						v, w := jr.Intn(4), jr.Intn(50)
 						jmu <- struct{}{}
 						if v == 0 {
-							return time.Duration(1+jr.Intn(50)) * time.Microsecond
+							return time.Duration(1+w) * time.Microsecond
 						}
 						return 0
 					}
